@@ -307,3 +307,106 @@ class LazyCheck:
 
     def ensures_no_content_no_violation(context, result):
         return implies(context.file_content is None, len(result) == 0)
+
+
+# ------------------------------------------------------------------------------------------ file-header: gated by the detected language
+# The header parser is chosen by context.language alone. Documented header languages (docs/file-header-linter.md):
+# Python, TypeScript, JavaScript, Bash, Markdown, CSS. Property text: "a file of an unrecognised type yields no
+# source-analysis violation" -- so for any other language value (in particular "unknown") the rule reports nothing,
+# whatever the file is called and whatever it contains.
+FH = "src/linters/file_header/linter.py::"
+HEADER_LANGUAGES = ("python", "typescript", "javascript", "bash", "markdown", "css")
+FHRuleT = Rec("FileHeaderRule", cls=FH + "FileHeaderRule")
+FHConfigT = Rec("FileHeaderConfig", key=Int)
+HEADER_ANALYSIS = "header extraction / field validation / atemporal wording of ONE parser (C12 covers the locations): interface only"
+
+
+def _native_header_rule(fields):
+    from src.linters.file_header.linter import FileHeaderRule
+    return FileHeaderRule()
+
+
+def _native_context(fields):
+    """A real lint context for native replay / witnesses (BaseLintContext itself is abstract)."""
+    import pathlib
+    from src.orchestrator.core import FileLintContext
+    p = fields.get("file_path")
+    return FileLintContext(pathlib.Path(str(p)) if p is not None else None, fields.get("language") or "unknown",
+                           content=fields.get("file_content"), metadata={})
+
+
+FHRuleT.build_native = _native_header_rule
+CtxT.build_native = _native_context
+
+
+@contract(FH + "FileHeaderRule._check_header_with_parser", props=["C15"], types=dict(self=FHRuleT, context=CtxT, config=FHConfigT),
+          returns=SeqOf(ViolationT), assumed=HEADER_ANALYSIS)
+class FHCheckWithParser:
+    def ensures(result):
+        return True
+
+
+@contract(FH + "FileHeaderRule._check_markdown_header", props=["C15"], types=dict(self=FHRuleT, context=CtxT, config=FHConfigT),
+          returns=SeqOf(ViolationT), assumed=HEADER_ANALYSIS)
+class FHCheckMarkdown:
+    def ensures(result):
+        return True
+
+
+@contract(FH + "FileHeaderRule._has_file_ignore", props=["C15"], types=dict(self=FHRuleT, context=CtxT), returns=Bool,
+          assumed="file-level ignore directives in the first lines (C04): interface only")
+class FHHasFileIgnore:
+    def ensures(result):
+        return True
+
+
+@contract(FH + "FileHeaderRule._load_config", props=["C15"], types=dict(self=FHRuleT, context=CtxT), returns=FHConfigT,
+          assumed="configuration loading (C05): interface only")
+class FHLoadConfig:
+    def ensures(result):
+        return True
+
+
+@contract(FH + "FileHeaderRule._should_ignore_file", props=["C15"], types=dict(self=FHRuleT, context=CtxT, config=FHConfigT),
+          returns=Bool, assumed="ignore-pattern matching on the path (C09): interface only")
+class FHShouldIgnoreFile:
+    def ensures(result):
+        return True
+
+
+def _plain_text_witness(name, language):
+    import pathlib
+    return {"self": {}, "config": {"__rec__": "FileHeaderConfig", "key": 0},
+            "context": {"__rec__": "LintContext", "file_path": pathlib.Path(name), "language": language,
+                        "file_content": "currently this is just some prose, updated 2024-01-01\n"}}
+
+
+@contract(FH + "FileHeaderRule._check_language_header", props=["C15"], types=dict(self=FHRuleT, context=CtxT, config=FHConfigT),
+          returns=SeqOf(ViolationT))
+class FHCheckLanguageHeader:
+    def ensures_only_header_languages(context, result):
+        return implies(context.language not in HEADER_LANGUAGES, len(result) == 0)
+
+    # inputs from the property's quantifier ("files of ... several unsupported extensions"): unrecognised file types
+    def witness_only_header_languages():
+        return _plain_text_witness("README.md", "unknown")
+
+    def witness_shell_script_of_unknown_language():
+        return _plain_text_witness("deploy.SH", "unknown")
+
+    def witness_stylesheet_of_unknown_language():
+        return _plain_text_witness("site.css", "unknown")
+
+    def witness_recognised_language_without_header_support():
+        return _plain_text_witness("main.go", "go")
+
+
+@contract(FH + "FileHeaderRule.check", props=["C15"], types=dict(self=FHRuleT, context=CtxT, config=FHConfigT),
+          returns=SeqOf(ViolationT))
+class FHCheck:
+    def ensures_only_header_languages(context, result):
+        return implies(context.language not in HEADER_LANGUAGES, len(result) == 0)
+
+    def witness_only_header_languages():
+        w = _plain_text_witness("NOTES.md", "unknown")
+        return {"self": w["self"], "context": w["context"]}
